@@ -16,7 +16,8 @@ COQ = os.path.join(VERIF, "coq")
 OCAML = os.path.join(VERIF, "ocaml")
 HARNESS = os.path.join(VERIF, "harness")
 TARGET = os.path.join(CACHE, "harness-target")
-HARNESS_BIN = os.path.join(TARGET, "release", "hls_harness")
+HARNESS_BIN = os.environ.get("VERIF_HARNESS_BIN") or os.path.join(TARGET, "release", "hls_harness")
+HARNESS_BIN_DEBUG = os.path.join(TARGET, "debug", "hls_harness")
 DRIVER_BIN = os.path.join(OCAML, "driver")
 NPROC = 16
 
@@ -113,6 +114,32 @@ def build_harness():
     rc, out = sh("cargo build --release --offline", cwd=HARNESS, timeout=1800)
     if rc != 0:
         raise BuildError("harness:cargo-build", out[-4000:])
+
+
+def build_harness_debug():
+    """unoptimised build (no tail-call elimination, no inlining): recursion depth and debug assertions as `cargo test` sees them"""
+    rc, out = sh("cargo build --offline", cwd=HARNESS, timeout=1800)
+    if rc != 0:
+        raise BuildError("harness:cargo-build-debug", out[-4000:])
+
+
+def run_solo(binary, case, timeout=120):
+    """one case in its own process: an abort (stack overflow, SIGABRT) or a hang is attributed to exactly this input"""
+    os.makedirs(os.path.join(CACHE, "run"), exist_ok=True)
+    path = os.path.join(CACHE, "run", "solo_%d_%s.tsv" % (os.getpid(), case["id"]))
+    write_cases(path, [case])
+    try:
+        p = subprocess.run([binary, path], stdout=subprocess.PIPE, stderr=subprocess.DEVNULL, timeout=timeout)
+        out = p.stdout.decode("utf-8", "replace")
+        for line in out.splitlines():
+            if "\t" in line:
+                return line.split("\t", 1)[1]
+        return "abort (signal %d)" % (-p.returncode) if p.returncode < 0 else "abort (exit %d, no result)" % p.returncode
+    except subprocess.TimeoutExpired:
+        return "hang (no result within %d s)" % timeout
+    finally:
+        if os.path.exists(path):
+            os.unlink(path)
 
 
 FORBIDDEN = re.compile(r"\b(Admitted|admit|give_up|Axioms?|Parameters?|Conjectures?|Hypothes[ie]s|Variables?)\b|Unset Guard|bypass_check|type-in-type|impredicative-set|Admit Obligations|Unset Positivity|Unset Universe")
